@@ -17,6 +17,22 @@ add("C02", "exploration",
     "Only contract-conforming commits (tag position < committed count) are judged. Trusts the queue model.",
     "runtime monitoring: reference-model oracle over generated tagged histories", "3/C02", "ring-history")
 
+add("C04", "fault_enumeration",
+    "A finite grid of schedule scripts (about 260 scenarios) over ReadStream::wait/eof, WriteStream::wait, NCReadStream::wait/eof, the derive-generated eof() of a block with a packet input, and a 3-thread MTGraph with a gated source: the peer's 'commit last data; go away' is placed before the call, during the blocked wait, at the yield hook between the timed-out wait and the liveness read, commit-only, between liveness and emptiness read, and after the call, for 16 (buffered, need, final) points. The acting thread is parked at the hook by hand-shake (confirmed by the script). Oracle: a 'never'/eof verdict only with the writer gone and less than requested readable; all committed ids drainable afterwards; end of stream reported within 2 waits after the peer left; MTGraph delivers every sample committed before the source exited.",
+    "Cuts are the library's yield hooks (all outside its locks); orders between hooks are reached only by the random delays of C05. Liveness is restated as 'told within 2 wait() calls'.",
+    "runtime monitoring with scripted schedules: thread parked at yield hooks inside the check-then-act window", "3/C04", "eos-scripts")
+add("C05", "exploration",
+    "Generated graph programs over ~25 deterministic library blocks (chains of 0-6 stages, tee/merge diamonds with bounded skew, rate changers, packet stages HdlcDeframer->VecToStream; finite VectorSource of 0..5 stream capacities, 1-3 repetitions; streams of 1,2,4,16 pages or default) run on the real MTGraph with every block wrapped in a probe, in forward/reverse/random add order, with seeded PCT-style delays injected at yield hooks (incl. >100 ms sleeps so wait time-outs fire). Termination is decided by a logical stuck rule (no data event and no block exit while every live block was called 4 more times), the sink is compared bit-for-bit with the harness's own sequential executor on default streams, and block drop / thread count are checked after run().",
+    "Decides only the interleavings produced on this x86-64 machine. The reference executor is harness code that looks at data movement, not verdicts. Diamonds are generated with equal rates and skew <= capacity/8 (an unbalanced diamond deadlocks by dataflow construction).",
+    "runtime monitoring: differential oracle vs sequential reference under injected schedule noise + logical stuck detector", "3/C05", "graph-programs")
+add("C06", "exploration",
+    "The same generated programs on the single-threaded Graph in forward, reverse and random add orders on 1-16 page streams. After run() returns Ok, every block is called again through the hook accessor Graph::verif_blocks_mut and no data may move (quiescence probe); then the sink must equal the reference. An early return is classified by whether the pass that decided termination contained a data-moving call with a non-Again verdict (the recorded known finding) or not (reported).",
+    "Known finding C06|Graph::run|returned-before-quiescence|final-pass-had-data-moving-non-Again-call is listed in known_findings.json: runs that hit it are not judged further. Any other signature is a violation.",
+    "runtime monitoring: quiescence probe at a hook + differential oracle vs sequential reference", "3/C06", "graph-programs")
+add("C07", "fault_enumeration",
+    "Chains of 1-5 blocks behind finite and infinite sources on both runners. Cancellation is injected (i) from an outside thread after a seeded delay, (ii) from the hook callback at the k-th yield event of whichever thread reaches it (k swept), (iii) from inside a block's work(); probes count work() entries that begin after cancel() returned (bound 1 on Graph, 2 on MTGraph), run() must return (stuck detector), blocks dropped and thread count back to baseline. A failing block at every chain position failing on call k in {1,2,5,50}: run() under catch_unwind must return Err carrying the injected message.",
+    "The swept fault points are the yield hooks (every stream operation entry and every peer-liveness read) plus block-internal and external cancellation; points between them are reached only by timing.",
+    "runtime monitoring with fault injection: cancellation at swept hook points, failing block at every position", "3/C07", "graph-programs")
 add("C08", "exploration",
     "Every stream-processing block of the library (42 catalogue entries incl. all sync blocks, Skip, Delay, RationalResampler, FIR/FFT filters, Hilbert, AU codec, RtlSdrDecode, SymbolSync/ZeroCrossing with and without clock output, deframers, StreamToPdu, VecToStream, ToText, FftStream, CMA, WPCR) is run twice on the same seeded parameters and input: one-shot on default streams and under a seeded adversarial drip-feed schedule on 1-4 page streams with the harness as both neighbours; outputs must be bit-identical, every intermediate drain a prefix, and work() must never unwind. Decides chunking independence on the executions produced.",
     "Reference = the same implementation run one-shot (a defect that is chunking-independent is C10/C11's business). Floats are compared bitwise. Hooks must be passive.",
@@ -41,6 +57,10 @@ ENGINES = [
          kind_free_text="random/walker/boundary operation histories on one stream vs an executable queue model"),
     dict(name="drip-feed", path="harness/src/drip.rs, duts.rs, blockprops.rs", serves_properties=["C08", "C09", "C10", "C12"],
          kind_free_text="harness plays both neighbours of one block on small streams; per-call observation through hook events"),
+    dict(name="eos-scripts", path="harness/src/eos.rs", serves_properties=["C04"],
+         kind_free_text="deterministic hand-shakes at yield hooks between a reader/writer thread and its peer"),
+    dict(name="graph-programs", path="harness/src/graphs.rs, runners.rs", serves_properties=["C05", "C06", "C07"],
+         kind_free_text="generated graphs of probed library blocks on the real runners, delay injection at yield hooks, logical stuck detector, sequential reference executor"),
 ]
 
 def main():
